@@ -99,6 +99,8 @@ def potable_main(argv):
         main()
     except SystemExit as e:
         code = e.code if isinstance(e.code, int) else (0 if e.code is None else 1)
+    except BaseException as e:
+        code = 'uncaught ' + type(e).__name__; se.write('uncaught %s: %s' % (type(e).__name__, e))
     finally:
         sys.argv, sys.stdout, sys.stderr = old
     return code, so.getvalue(), se.getvalue()
